@@ -82,6 +82,12 @@ def fresh_of(ex, st, shape, name, scope=None):
             st.assume(m_.n >= 0)
             out.append(m_)
         return Tup(out)
+    if shape == "dict":
+        from pyvc.sym import DictV
+        d_ = DictV(fresh(name + "_has", z3.ArraySort(I, B)), fresh(name + "_varr", A2), fresh(name + "_vlen", A),
+                   Seq("list", "int", fresh(name + "_order", A), fresh(name + "_order_n")))
+        st.assume(d_.order.n >= 0)
+        return d_
     if shape == "arr":
         return fresh(name, A)
     if shape == "arr2":
